@@ -164,35 +164,61 @@ def check_doubling(facts, rep):
     k1 + k2 to k2 + k1. A datum that is not doubled (e.g. the coefficient, harmless over F2 but not over F2[H])
     leaves an inhomogeneous / wrong canonical class."""
     root = B + 'build_from_half'
-    bodies = {k: b for k, b in facts.bodies.items() if k.startswith(root + '::{closure')}
-    if root not in facts.bodies or not bodies:
+    if root not in facts.bodies:
         rep.indet('E7b.K5: build_from_half not found')
         return
+    # the doubling may be spread over private helpers of the builder: build_from_half, the non-pub functions of the
+    # builder it reaches (transitively), and every closure nested in any of them
+    cands = [facts.bodies[root]]
+    for _ in range(8):
+        for cb in list(cands):
+            for c in cb.calls():
+                t = facts.bodies.get(c.callee or '')
+                if t is not None and t not in cands and t.defp.startswith(B) and t.d.get('vis', 'pub') != 'pub' and t.kind != 'Closure':
+                    cands.append(t)
+            for k2, b2 in facts.bodies.items():
+                if k2.startswith(cb.defp + '::{closure') and b2 not in cands:
+                    cands.append(b2)
+    bodies = {b.defp: b for b in cands if b.defp != root}
+    if not bodies:
+        rep.indet('E7b.K5: build_from_half has neither closures nor helpers')
+        return
     key_doubled = coef_squared = cob_doubled = swap = False
+    bad = []
     for k, b in bodies.items():
         rep.saw(b)
-        for p in SymEx(b, max_paths=5000).run():
+        for p in SymEx(b, max_paths=5000, inline=False).run():
             r = p.ret
             if p.end != 'return' or r is None or r[0] != 'tuple' or len(r[1]) != 2:
                 continue
             a, c = r[1]
             sa, sc = sk(a), sk(c)
-            if sa == 'add(arg2, arg2)':
+            calls = [e.name.split('::')[-1] for e in p.calls()]
+            if re.match(r'add\((arg\d), \1\)$', sa):
                 key_doubled = True
-            if re.match(r'mul\(&?arg3, &?arg3\)$', sc):
-                coef_squared = True
-                calls = [e.name.split('::')[-1] for e in p.calls()]
-                if 'connect' in calls and 'convert_edges' in calls:
-                    cob_doubled = True
-            if sa == 'add(arg2.0, arg2.1)' and sc == 'add(arg2.1, arg2.0)':
-                swap = True
+            elif re.match(r'arg\d$', sa) and 'into_map' in calls:
+                bad.append('the key of a transported cycle is kept (%s) while its cobordisms are doubled' % sa)
+            if 'connect' in calls and 'convert_edges' in calls:
+                cob_doubled = True
+                if re.match(r'mul\(&?(arg\d), &?\1\)$', sc):
+                    coef_squared = True
+                elif re.match(r'&?\*?arg\d$', sc):
+                    bad.append('the cobordism of a transported cycle is glued to its mirror image but its coefficient is kept (%s) instead of squared' % sc)
+            m1 = re.match(r'add\((arg\d)\.([01]), \1\.([01])\)$', sa)
+            m2 = re.match(r'add\((arg\d)\.([01]), \1\.([01])\)$', sc)
+            if m1 and m2 and m1.group(1) == m2.group(1):
+                if (m1.group(2), m1.group(3)) == (m2.group(3), m2.group(2)) and m1.group(2) != m1.group(3):
+                    swap = True
+                else:
+                    bad.append('the tau key map sends %s to %s: the halves are not swapped' % (sa, sc))
     inst = 'SymTngBuilder::build_from_half|key, cobordism and coefficient of a cycle double together; tau swaps the halves'
-    if key_doubled and coef_squared and cob_doubled and swap:
+    if bad:
+        rep.violation('E7b.K5-doubling', inst, 'build_from_half: %s - key, cobordism, coefficient (r*r) and the tau swap of halves are all needed when the half tangle is glued to its mirror image' % '; '.join(sorted(set(bad))),
+                      where=facts.bodies[root].where())
+    elif key_doubled and coef_squared and cob_doubled and swap:
         rep.ok('E7b.K5-doubling', inst, 'k -> k + k, c -> c.connect(tau c), r -> r * r, (k1 + k2) -> (k2 + k1)')
     else:
-        rep.violation('E7b.K5-doubling', inst,
-                      'build_from_half doubles key: %s, cobordism: %s, coefficient (r*r): %s, tau swap of halves: %s - all four are needed when the half tangle is glued to its mirror image' %
-                      (key_doubled, cob_doubled, coef_squared, swap), where=facts.bodies[root].where())
+        rep.indet('E7b.K5: build_from_half outside the recognised fragment (key doubled: %s, cobordism: %s, coefficient squared: %s, tau swap: %s)' % (key_doubled, cob_doubled, coef_squared, swap))
 
 
 def check_half_grouping(facts, rep):
